@@ -214,10 +214,11 @@ def beamCX (E : Ext α) (cf : α) (wl : α) (extrapolate : Bool) (c : CXTable α
                     | none => Out.val 0
                     | some rate => Out.val rate
 
-/-- `beamCX` behind the guard that `evaluate` has for the other classes.  `guardTD = false` is the code as it is
-(only the energy is guarded, inside `beamCX`); `guardTD = true` is what the generated class table will say once
-`if energy <= 0 or temperature <= 0 or density <= 0: return 0` is the leading guard — the driver reads the flag from
-`Gen/OpenAdasPolicy.lean`, so the model follows the source without being edited. -/
+/-- `BeamCXPEC.evaluate` = the leading guard `if energy <= 0 or temperature <= 0 or density <= 0: return 0`
+(`guardTD = true`, the code since 57a68d0) in front of the interpolation chain `beamCX`.  `guardTD = false` is the
+energy-only guard of the earlier tree; the driver reads the flag from the generated class table, the theorems about
+the class are stated for `true`, and `class_table_as_modelled` / `guards_complete` fail to build on a table without
+the complete guard. -/
 def beamCXGuarded (guardTD : Bool) (E : Ext α) (cf : α) (wl : α) (extrapolate : Bool) (c : CXTable α)
     (energy temperature density zeff bfield : α) : Out α :=
   if guardTD = true ∧ (energy ≤ 0 ∨ temperature ≤ 0 ∨ density ≤ 0) then Out.val 0
@@ -462,7 +463,8 @@ def modelled : List RateClassModel := [
   ⟨"BeamStoppingRate", Shape.beam, false, ent, ent, eBeam⟩,
   ⟨"BeamPopulationRate", Shape.beam, false, ent, ent, eBeam⟩,
   ⟨"BeamEmissionPEC", Shape.beam, true, ent, ent, eBeam⟩,
-  ⟨"BeamCXPEC", Shape.beamCX, true, ["energy", "temperature", "density", "z_effective", "b_field"], ["energy"],
+  ⟨"BeamCXPEC", Shape.beamCX, true, ["energy", "temperature", "density", "z_effective", "b_field"],
+    ["energy", "temperature", "density"],
     [("extrapolation_type_log", "quadratic"), ("extrapolation_type", "nearest")]⟩]
 
 def extrapOfString (s : String) : Extrap :=
